@@ -43,6 +43,16 @@ pub fn final_check(s: &In) -> Result<(), Violation> {
         }
     }
     let wit = uniq.join(",");
+    // a routed client has no control service the harness could observe (ClientRouter only offers start()):
+    // only "no panic, no hang, a live connection still answers" is judged there
+    let observable = !(s.cfg.ep.role == Role::Client && s.cfg.ep.router);
+    if !observable {
+        if !s.conn.done() && s.probe_sent && s.conn.log.count(|r| matches!(r, Rec::HPayload { bytes, .. } if bytes.first() == Some(&PROBE_TAG))) == 0 {
+            return Err(viol(s, "hang", wit, "connection is up but does not process a probe packet any more".into()));
+        }
+        let _ = step();
+        return Ok(());
+    }
     if stops.len() > 1 {
         return Err(viol(s, "stop-twice", wit, format!("control service received {} Stop notifications: {stops:?}", stops.len())));
     }
@@ -142,6 +152,26 @@ pub fn configs(tier: Tier) -> Vec<InCfg> {
             if (state == 3 && role == Role::Client) || (state >= 5 && role == Role::Server) {
                 continue;
             }
+            // clients: idle and gated-handler states also with the topic router in front of the handler
+            if role == Role::Client && (state == 0 || state == 2) {
+                let mut rep = ep.clone();
+                rep.router = true;
+                v.push(InCfg {
+                    ep: rep,
+                    connect_props: vec![],
+                    alphabet: alphabet(ver, role),
+                    prologue: prologue.clone(),
+                    max_len: if tier == Tier::Quick { 3 } else { 4 },
+                    outcomes: vec![GateOutcome::Ok],
+                    poutcomes: vec![GateOutcome::Ok],
+                    cork: false,
+                    judge: J_C16,
+                    app_sends: vec![],
+                    skip_connect: false,
+                    known: vec![],
+                    bp: 0,
+                });
+            }
             v.push(InCfg {
                 ep,
                 connect_props: vec![],
@@ -169,7 +199,7 @@ pub fn run(tier: Tier) -> i32 {
         ck.explore::<In>("inbound", i, c, &ecfg);
     }
     ck.rule = format!(
-        "per role and version: every sequence of up to {} well-formed packets over an alphabet of 26-30 templates (every packet type incl. those illegal in that direction, ids in use / free / unknown, PUBLISH complete / split / left incomplete / duplicate id / retain / wildcard topic / alias, second CONNECT, every ack type) against 5 (clients 6) application states (idle; outstanding QoS1+QoS2(+SUBSCRIBE) sends; two gated publish handlers; instead of the handshake (servers); an outbound publish being streamed; clients: a lone SUBSCRIBE, a lone UNSUBSCRIBE outstanding), handler completions interleaved; oracle: no panic, poll horizon never hit, at most one Stop, Stop reason is a protocol error unless a DISCONNECT (or client-side unknown PUBREL) is in the sequence, and a connection without Stop still answers a probe packet after the drain",
+        "per role and version: every sequence of up to {} well-formed packets over an alphabet of 26-30 templates (every packet type incl. those illegal in that direction, ids in use / free / unknown, PUBLISH complete / split / left incomplete / duplicate id / retain / wildcard topic / alias, second CONNECT, every ack type) against 5 (clients 6) application states (idle; outstanding QoS1+QoS2(+SUBSCRIBE) sends; two gated publish handlers; instead of the handshake (servers); an outbound publish being streamed; clients: a lone SUBSCRIBE, a lone UNSUBSCRIBE outstanding; clients idle / with gated handlers also behind the topic router), handler completions interleaved; oracle: no panic, poll horizon never hit, at most one Stop, Stop reason is a protocol error unless a DISCONNECT (or client-side unknown PUBREL) is in the sequence, and a connection without Stop still answers a probe packet after the drain",
         if tier == Tier::Quick { 3 } else { 4 }
     );
     ck.assumptions = vec!["FIFO task order of ntex-rt; nondeterminism = timing of environment events (DESIGN 2.4)".into()];
